@@ -470,7 +470,20 @@ func (l *Layout) subgraphSDL(sg int) string {
 			sb.WriteString(kw + " " + t.Name)
 			var impl []string
 			for _, in := range t.Implements {
-				if use[in] != nil {
+				if use[in] == nil {
+					continue
+				}
+				// a subgraph's stub of an entity that lacks a field of the interface does
+				// not declare the interface (it would not be a valid schema)
+				complete := true
+				if it := s.Type(in); it != nil {
+					for _, f := range it.Fields {
+						if !u.owned[f.Name] && !u.external[f.Name] {
+							complete = false
+						}
+					}
+				}
+				if complete {
 					impl = append(impl, in)
 				}
 			}
